@@ -147,7 +147,7 @@ Qed.
 Lemma lay_stmt_named names s : stmt_named names s.
 Proof.
   induction s as [ce body IH | own fid body IH | s Hs] using stmt_ind2; intros inrep st st' d H Hn HL.
-  - rewrite lay_stmt_repeat in H. xinv H. eapply iter_named; [exact IH| |exact H|exact HL].
+  - rewrite lay_stmt_repeat in H. xinv H. destruct (65536 <? a0); [discriminate|]. eapply iter_named; [exact IH| |exact H|exact HL].
     intros m Hm. apply Hn. simpl. rewrite lnames_nested. exact Hm.
   - destruct inrep; [discriminate|]. rewrite lay_stmt_include in H. xinv H. destruct a as [s1 d1]. simpl in H. inversion H; subst. simpl.
     eapply lay_list_named; [apply Forall_cut_end; exact IH|exact Ha| |exact HL].
